@@ -235,7 +235,10 @@ class Typer:
                 ba = base.single_atom() if isinstance(base, Form) else None
                 if ba and ba[0] == "meth" and ba[2] == "fit":
                     return self.ty(ba[3][0]) if ba[3] else UNK
-                return self.fit_type if self.fit_type is not None else UNK
+                if ba and ba[0] == "fn" and ba[1] == "fitted" and isinstance(self.fit_type, dict):
+                    k = int(ba[2][1].rational())
+                    return self.fit_type.get(k, UNK)   # centres live in the space of the data of that fit
+                return UNK
             return self.ty(a[1])
         if k == "meth":
             base, name, args = a[1], a[2], a[3]
@@ -373,18 +376,19 @@ def run(ctx):
                 continue
             eye = rets[0].value
             # distance-based sinks first: arguments of KMeans.fit
-            fits = [r for r in it.calls if r.depth == 0 and r.callee and r.callee.endswith(".fit")]
-            fit_type = None
-            for r in fits:
-                tp = Typer(samples)
-                t = tp.ty(r.args[0]) if r.args else UNK
+            fit_type = {}
+            for k, (node, fargs, fkw, fdepth) in enumerate(it.fit_log):
+                if fdepth != 0:
+                    continue
+                tp = Typer(samples, fit_types=fit_type)
+                t = tp.ty(fargs[0]) if fargs else UNK
                 if t == BAD and not tp.errors:
                     tp.err("clustered data", "the data are not affine-equivariant quantities (product/ratio involving an absolute level)")
                 for what, why in tp.errors:
-                    ctx.violation("C17.1", fi, r.node, f"GET_EYE: data given to {src_of(r.node)[:60]}", f"{what[:200]}: {why}")
+                    ctx.violation("C17.1", fi, node, f"GET_EYE: data given to {src_of(node)[:60]}", f"{what[:200]}: {why}")
                 if not tp.errors:
-                    ctx.holds("C17.1", fi, r.node, f"GET_EYE [{case}]: data given to {src_of(r.node)[:60]}", f"single type: {t!r}")
-                fit_type = t if isinstance(t, T) else (ANY if tp.errors else None)
+                    ctx.holds("C17.1", fi, node, f"GET_EYE [{case}]: data given to {src_of(node)[:60]}", f"single type: {t!r}")
+                fit_type[k] = t if isinstance(t, (T, ColT)) else (ANY if tp.errors else UNK)
             tp = Typer(samples, fit_types=fit_type)
             for name, want in FIELD_TYPES.items():
                 if name not in eye.fields:
